@@ -97,6 +97,9 @@ func printResult(hr *interp.HarnessResult) {
 	for m, n := range hr.ProblemMsgs {
 		fmt.Printf("   PROBLEM x%d: %s\n", n, m)
 	}
+	for _, d := range hr.ProblemDetail {
+		fmt.Printf("   DETAIL: %s\n", d)
+	}
 	for _, v := range hr.Violations {
 		fmt.Printf("   VIOLATION-CANDIDATE label=%s msg=%s decisions=%s model=%v notes=%v\n", v.Label, v.Msg, v.Decisions, v.Model, v.Notes)
 	}
